@@ -331,6 +331,9 @@ def check_aliases(ctx, rels):
             for r, node in reused_buffers(f.node, outer):
                 ctx.bad("reused-buffer:%s:%s" % (q.split(".", 1)[-1], r), "%s:%d" % (rel, node.lineno),
                         "%s reads `%s.getvalue()` from a stream that outlives the call and is never truncated: after a longer use the tail of the earlier bytes stays behind the shorter later ones" % (q, r))
+            for node, t in native_struct_formats(f.node):
+                ctx.bad("native-struct-format:%s" % q.split(".", 1)[-1], "%s:%d" % (rel, node.lineno),
+                        "%s packs / unpacks with the struct format `%s`, which has no byte-order prefix: fields wider than a byte take the machine's byte order and are ALIGNED (padding bytes between a 1-byte and an 8-byte field), unlike the wire format" % (q, t))
     ctx.ok("no-object-shared-between-iterations-or-calls", sample={"rule": "accumulators rebound per iteration; outliving streams truncated before reuse", "functions_looked_at": n}, nontrivial=False)
 
 
@@ -369,4 +372,35 @@ def hoisted_initialisations(code_fn, ref_fn):
             continue
         if name in rb and name in rf and any(inl for _n, inl in rb[name]):
             out.append((name, bs[0][0]))
+    return out
+
+
+_STRUCT_FUNCS = ("struct.pack", "struct.unpack", "struct.Struct", "struct.calcsize", "struct.pack_into", "struct.unpack_from", "struct.iter_unpack")
+_ONE_BYTE = set("bBc?x")
+
+
+def native_struct_formats(fn):
+    """[(node, format text)]: a struct format without a byte-order prefix that is more than one single-byte item: it is laid out
+    with the machine's byte order AND alignment (padding between fields), not with the wire format's"""
+    out = []
+    defs = {}
+    for n in ast.walk(fn):
+        if isinstance(n, ast.Assign) and len(n.targets) == 1 and isinstance(n.targets[0], ast.Name):
+            defs.setdefault(n.targets[0].id, []).append(n.value)
+    for n in ast.walk(fn):
+        if not (isinstance(n, ast.Call) and ast.unparse(n.func) in _STRUCT_FUNCS and n.args):
+            continue
+        a = n.args[0]
+        if isinstance(a, ast.Name) and len(defs.get(a.id, [])) == 1:
+            a = defs[a.id][0]
+        if isinstance(a, ast.Constant) and isinstance(a.value, (str, bytes)):
+            t = a.value if isinstance(a.value, str) else a.value.decode("latin1")
+            if t[:1] in "<>!=@" and t[:1] != "@":
+                continue
+            body = t.lstrip("@")
+            items = [c for c in body if not c.isdigit() and not c.isspace()]
+            if len(items) > 1 or any(c not in _ONE_BYTE for c in items):
+                out.append((n, t))
+        elif isinstance(a, ast.Call) and isinstance(a.func, ast.Attribute) and a.func.attr == "join" and isinstance(a.func.value, ast.Constant) and a.func.value.value in ("", b""):
+            out.append((n, ast.unparse(a)[:60]))
     return out
